@@ -76,7 +76,11 @@ def run_cases(check: str, tier: str, seed: int, cases: list[dict], out) -> None:
         mod.worker_init(ctx)
     default_budget = getattr(mod, "STEP_BUDGET", 50_000_000)
 
+    aborted = 0
     for case in cases:
+        if aborted >= 2:
+            # repeated non-termination / budget aborts: the verdict is already decided, don't burn the wall clock
+            break
         out.write(json.dumps({"start": case["cid"]}) + "\n")
         out.flush()
         t0 = time.time()
@@ -111,6 +115,8 @@ def run_cases(check: str, tier: str, seed: int, cases: list[dict], out) -> None:
         finally:
             ctx.audit.enabled = False
             ctx.cleanup()
+        if rec.get("aborted"):
+            aborted += 1
         if ctx.steps is not None:
             rec["steps"] = ctx.steps.steps
             ctx.steps.budget = None
